@@ -505,7 +505,7 @@ func (c10) Case(c *core.Ctx) {
 	}
 	// wrapper: j2x returns the encoding of the result
 	if r.Intn(6) == 0 && sep == ":" && !goTyped {
-		if jb, e := json.Marshal(before); e == nil {
+		if jb, e := json.Marshal(before); e == nil && jsonSafeKeys(before) {
 			nvw := newVal
 			if mv, ok := nvw.(mxj.Map); ok {
 				nvw = map[string]interface{}(mv)
